@@ -14,6 +14,7 @@ import (
 	sdk "github.com/cosmos/cosmos-sdk/types"
 
 	fundraising "github.com/tendermint/fundraising/x/fundraising/module"
+	frkeeper "github.com/tendermint/fundraising/x/fundraising/keeper"
 	frtypes "github.com/tendermint/fundraising/x/fundraising/types"
 )
 
@@ -34,6 +35,7 @@ type Extra struct {
 	Nx         int    `json:"nx"`
 	ValidateOk bool   `json:"validate_ok"`
 	Note       string `json:"note,omitempty"`
+	Answer     []any  `json:"answer"` // C16: the answer of a Query step
 	// C14: digests of the complete ordered event stream of the step (bank and module events, all
 	// attributes) and of the module's raw store plus the account numbers of the model accounts
 	EvHash string `json:"evh"`
@@ -189,7 +191,7 @@ func (e *Env) deliverLocal(ctx sdk.Context, msg sdk.Msg) error {
 
 // Exec executes one input on the behaviour's committed context and returns the trace line.
 func (e *Env) Exec(a Action, raw map[string]any) (st Step) {
-	st = Step{Act: raw, Xfers: []Xfer{}, Hooks: []HookCall{}, Extra: Extra{ValidateOk: true}, Ev: []EventJ{}, Rep: 1, Judge: true}
+	st = Step{Act: raw, Xfers: []Xfer{}, Hooks: []HookCall{}, Extra: Extra{ValidateOk: true, Answer: []any{}}, Ev: []EventJ{}, Rep: 1, Judge: true}
 	em := sdk.NewEventManager()
 	ctx := e.Ctx.WithEventManager(em)
 	e.HookLog = nil
@@ -259,6 +261,8 @@ func (e *Env) Exec(a Action, raw map[string]any) (st Step) {
 			}
 		case "Genesis":
 			err = e.genesisRoundTrip(ctx, &st)
+		case "Query":
+			st.Extra.Answer, err = e.query(ctx, a)
 		default:
 			err = fmt.Errorf("unknown action %q", a.A)
 		}
@@ -439,4 +443,104 @@ func (e *Env) storeDigest(ctx sdk.Context) string {
 		}
 	}
 	return hex.EncodeToString(h.Sum(nil))[:16]
+}
+
+// query executes a Query input through the module's query server and returns the answer in the
+// shape of the specification's QueryAnswer (a sequence; empty = not found).
+func (e *Env) query(ctx sdk.Context, a Action) ([]any, error) {
+	qs := frkeeper.NewQueryServerImpl(e.K)
+	out := []any{}
+	statusName := map[string]string{"": "", "StandBy": frtypes.AuctionStatusStandBy.String(), "Started": frtypes.AuctionStatusStarted.String(),
+		"Vesting": frtypes.AuctionStatusVesting.String(), "Finished": frtypes.AuctionStatusFinished.String(), "Cancelled": frtypes.AuctionStatusCancelled.String()}
+	typeName := map[string]string{"": "", "F": frtypes.AuctionTypeFixedPrice.String(), "B": frtypes.AuctionTypeBatch.String()}
+	st, err := e.Project(ctx)
+	if err != nil {
+		return out, err
+	}
+	aucByID := map[int64]AuctionJ{}
+	for _, x := range st.Auctions {
+		aucByID[x.ID] = x
+	}
+	switch a.Q {
+	case "GetAuction":
+		r, err := qs.GetAuction(ctx, &frtypes.QueryGetAuctionRequest{AuctionId: uint64(a.ID)})
+		if err != nil {
+			return out, err
+		}
+		au, err := frtypes.UnpackAuction(r.Auction)
+		if err != nil {
+			return out, err
+		}
+		out = append(out, aucByID[int64(au.GetId())])
+		if int64(au.GetId()) != a.ID {
+			out = append(out, "wrong id")
+		}
+	case "ListAuction":
+		r, err := qs.ListAuction(ctx, &frtypes.QueryAllAuctionRequest{Status: statusName[a.Status], Type: typeName[a.Type]})
+		if err != nil {
+			return out, err
+		}
+		for _, any := range r.Auction {
+			au, err := frtypes.UnpackAuction(any)
+			if err != nil {
+				return out, err
+			}
+			out = append(out, aucByID[int64(au.GetId())])
+		}
+	case "GetBid":
+		r, err := qs.GetBid(ctx, &frtypes.QueryGetBidRequest{AuctionId: uint64(a.ID), BidId: uint64(a.Bid)})
+		if err != nil {
+			return out, err
+		}
+		b := r.Bid
+		out = append(out, BidJ{ID: int64(b.Id), Bidder: e.name(b.Bidder), Type: bidTypeName(b.Type), Price: e.DecNum(b.Price),
+			Denom: ModelDenom(b.Coin.Denom), Amt: b.Coin.Amount.Int64(), Matched: b.IsMatched})
+		if b.AuctionId != uint64(a.ID) {
+			out = append(out, "wrong auction")
+		}
+	case "ListBid":
+		bidder := ""
+		if a.Bidder != "" {
+			bidder = e.AddrStr(a.Bidder)
+		}
+		r, err := qs.ListBid(ctx, &frtypes.QueryAllBidRequest{AuctionId: uint64(a.ID), Bidder: bidder, IsMatched: a.Matched})
+		if err != nil {
+			return out, err
+		}
+		for _, b := range r.Bid {
+			out = append(out, map[string]any{"aid": int64(b.AuctionId), "id": int64(b.Id)})
+		}
+	case "ListVestingQueue":
+		r, err := qs.ListVestingQueue(ctx, &frtypes.QueryAllVestingQueueRequest{AuctionId: uint64(a.ID)})
+		if err != nil {
+			return out, err
+		}
+		for _, q := range r.VestingQueue {
+			out = append(out, map[string]any{"aid": int64(q.AuctionId), "t": TimeTick(q.ReleaseTime), "amt": q.PayingCoin.Amount.Int64(), "released": q.Released})
+		}
+	case "ListAllowedBidder":
+		r, err := qs.ListAllowedBidder(ctx, &frtypes.QueryAllAllowedBidderRequest{AuctionId: uint64(a.ID)})
+		if err != nil {
+			return out, err
+		}
+		for _, ab := range r.AllowedBidder {
+			out = append(out, map[string]any{"aid": int64(ab.AuctionId), "u": e.name(ab.Bidder), "cap": ab.MaxBidAmount.Int64()})
+		}
+	case "GetAllowedBidder":
+		r, err := qs.GetAllowedBidder(ctx, &frtypes.QueryGetAllowedBidderRequest{AuctionId: uint64(a.ID), Bidder: e.AddrStr(a.U)})
+		if err != nil {
+			return out, err
+		}
+		ab := r.AllowedBidder
+		out = append(out, map[string]any{"aid": int64(ab.AuctionId), "u": e.name(ab.Bidder), "cap": ab.MaxBidAmount.Int64()})
+	case "Params":
+		r, err := qs.Params(ctx, &frtypes.QueryParamsRequest{})
+		if err != nil {
+			return out, err
+		}
+		out = append(out, ParamsJ{CreateFee: e.feeJ(r.Params.AuctionCreationFee), BidFee: e.feeJ(r.Params.PlaceBidFee), ExtPeriod: int64(r.Params.ExtendedPeriod)})
+	default:
+		return out, fmt.Errorf("unknown query %q", a.Q)
+	}
+	return out, nil
 }
